@@ -86,9 +86,15 @@ def c06_oracle(d):
                 rf = ref_fetch.get(pos)
                 if f.get("err") or (rf is not None and (f.get("sha"), f.get("len")) != (rf.get("sha"), rf.get("len"))):
                     fails.append(dict(n=n, kind="untouched-entry-content-differs", detail=[f, rf]))
+                for via in ("fs", "op"):
+                    if via + "_len" in f and (f.get(via + "_err") or (rf is not None and (f.get(via + "_sha"), f.get(via + "_len")) != (rf.get("sha"), rf.get("len")))):
+                        fails.append(dict(n=n, kind="untouched-entry-content-differs-via-" + via, detail=[f, rf]))
             else:
                 if not f.get("err"):
                     fails.append(dict(n=n, kind="torn-entry-returned-data-without-error", detail=f))
+                for via in ("fs", "op"):
+                    if via + "_len" in f and not f.get(via + "_err"):
+                        fails.append(dict(n=n, kind="torn-entry-returned-data-without-error-via-" + via, detail=f))
     return fails, len(res)
 
 
